@@ -41,9 +41,11 @@ A trace (see spec/TraceSchemes.tla):
   gen    {done, ok, kind, eq, msg}  code generation outcome; kind rejected =
          the code's own fail-fast property checks raised (eq = class name)
   run    {done, ok, kind, bad [{array, prop}], msg}
+  ms_setup, ms_gen                  wall time of the two legs (profiling)
 """
 import hashlib
 import importlib
+import importlib.util
 import inspect
 import io
 import json
@@ -119,6 +121,8 @@ TABLE = {
         ctor=dict(rho0=RHO0), toggles=dict(nu=[0.0, NU])),
     'pysph.sph.isph.isph:ISPHScheme': dict(
         ctor=dict(rho0=RHO0, c0=C0),
+        # run leg only: PPESolve.py_initialize solves with scipy.sparse
+        requires=('scipy',),
         toggles=dict(nu=[0.0, NU], alpha=[0.0, 0.1])),
     'pysph.sph.isph.sisph:SISPHScheme': dict(
         # pref is only read with gtvf=True and has no usable default (None)
@@ -267,6 +271,9 @@ def scheme_axes(path):
                 integrators=ent.get('integrators', [None]),
                 numeric_cli_options_not_varied=numeric,
                 unbuildable=ent.get('unbuildable', {}),
+                run_requires_missing=[
+                    m for m in ent.get('requires', ())
+                    if importlib.util.find_spec(m) is None],
                 defaults={k: getattr(obj, k) for k in axes})
 
 
@@ -438,7 +445,6 @@ def set_initial_state(pas, gas):
 
 
 def run_case(case):
-    from pysph.sph.equation import MultiStageEquations    # noqa: F401
     path = case['cls']
     ent = TABLE[path]
     opts = dict(case['opts'])
